@@ -311,6 +311,15 @@ void run(size_t idx) {
 				m.desc += " [faces outside the stored partitions]";
 			}
 		}
+		if (idx % 4 == 1 || idx % 8 == 6) {
+			// partition vertex maps in arbitrary order, as files written by other tools have them
+			if (permutePartitionVertexMaps(*m.nif, rng) > 0) {
+				NifFile cp(*m.nif);
+				m.bytes = saveNif(cp, false);
+				m.desc += " [partition vertex maps permuted]";
+				R_stat("models_with_permuted_partition_vertex_maps");
+			}
+		}
 		if (idx % 9 == 4) {   // all-white vertex colours
 			for (auto s : m.nif->GetShapes()) { std::vector<Color4> c(s->GetNumVertices(), Color4(1, 1, 1, 1)); m.nif->SetColorsForShape(s, c); }
 			NifFile cp(*m.nif);
